@@ -18,8 +18,10 @@ fn any_addr() -> SocketAddrV4 {
 }
 
 //@ ob: C15.O1
+//@ rss: 0.9
+//@ time: 357
 //@ tier: quick
-//@ cap: 900
+//@ cap: 800
 //@ standins: tracing
 //@ desc: validate(addr, tok) <=> tok has length 4 and equals crc32c(ip || curr_secret) or crc32c(ip || prev_secret) (big-endian), for symbolic secrets, address and token of length 0..=5; the reference digest is the crc crate's one-shot checksum over the 24-byte concatenation
 //@ bounds: all 2x2^160 secrets, all addresses, token length 0..=5 with symbolic bytes; unwind 26
@@ -52,8 +54,10 @@ fn c15_o1_validate_matches_reference() {
 }
 
 //@ ob: C15.O1b
+//@ rss: 0.9
+//@ time: 205
 //@ tier: quick
-//@ cap: 600
+//@ cap: 800
 //@ standins: tracing
 //@ desc: a token just generated for an address validates for that address (any port), and generate_token does not depend on the port
 //@ bounds: all secrets and addresses; unwind 26
@@ -75,8 +79,10 @@ fn c15_o1b_generate_then_validate() {
 }
 
 //@ ob: C15.O2
+//@ rss: 0.5
+//@ time: 101
 //@ tier: quick
-//@ cap: 900
+//@ cap: 800
 //@ standins: tracing
 //@ desc: same-secret injectivity in the IP: for every secret, two different IPv4 addresses never get the same token (CRC32 over a 4-byte difference followed by a common suffix is injective)
 //@ bounds: all 2^160 secrets x all pairs of distinct IPs; unwind 26
@@ -100,8 +106,10 @@ fn c15_o2_ip_injective() {
 }
 
 //@ ob: C15.O3
+//@ rss: 0.9
+//@ time: 144
 //@ tier: quick
-//@ cap: 600
+//@ cap: 800
 //@ standins: tracing
 //@ desc: rotate(): prev' = curr, curr' = fresh random bytes, last_updated' = now; should_update() <=> more than 300 s since last_updated; a token issued before one rotation still validates, after two rotations its secret is in neither slot
 //@ bounds: all secrets, symbolic clock instants t0 <= t1 (whole seconds, < 2^40), symbolic fresh secrets; unwind 26
